@@ -104,6 +104,7 @@ RetByVal  == PushOps \cup {"pop_back", "pop_front", "remove", "swap_remove_back"
 
 \* which properties a clause about operation op belongs to
 Home(op) == CASE op \in PushOps -> "C01,C02"
+              [] op = "clone_from" -> "C12"
               [] op \in {"drain"} -> "C01,C09"
               [] op \in MutOps -> "C01"
               [] op \in CtorOps \cup {"clone", "to_vec", "into_iter", "clone_from"} -> "C12"
@@ -280,6 +281,10 @@ GenericFail(S, e) ==
        Chk(\A id \in DropIds(e) : Nd(S, id) = 0 /\ DropCnt(e, id) = 1, FaultTag(S, e), "double_drop")
   \cup \* only on elements this call owns: never on one the caller or another container can still reach
        Chk(DropIds(e) \subseteq Owned(S, e) \cup DOMAIN S.limbo, FaultTag(S, e), "drop_of_reachable_element")
+  \cup \* C04: the buffer never shows an element that was moved out of it or destroyed (a stale slot)
+       Chk(~e.post.obs \/ e.ty # "t" \/
+           \A id \in Range(e.post.seq) : id \notin (S.held \ Range(e.ids)) /\ Nd(S, id) + DropCnt(e, id) = 0,
+           "C04", "stale_element_in_buffer")
   \cup \* C17
        Chk(e.allocs <= 0 \/ e.op \in AllocOps, "C17", "allocation")
 
